@@ -344,6 +344,14 @@ func runC15(r *Run) {
 	r.c15Scenario("tcp", I, T, "answers-always-after-drop", always, 1800*time.Millisecond, 350*time.Millisecond, false)
 	r.c15AfterAuthRecovery()
 	r.c15BusyButSilent()
+	r.c15HalfDeadButPinging()
+	for _, l := range c20SmallGzipKeepalive("ws") { // the heartbeat body carries the id also with a tiny gzip threshold
+		if strings.HasPrefix(l, "peer saw heartbeat") && l != "peer saw heartbeat: decodable=true id>0=true" {
+			r.violate(Violation{What: "over WebSocket with MinGzipSize(4) the heartbeat the peer receives does not carry the heartbeat id: " + l, Case: "ws keepalive 100 ms, MinGzipSize(4)"})
+			break
+		}
+	}
+	r.st.Evaluations++
 	r.c15OptionOrder()
 	r.c15Echo()
 }
@@ -529,6 +537,74 @@ func (r *Run) c15AfterAuthRecovery() {
 		}
 		r.st.Evaluations++
 		r.count("c15.tcp.after-auth-recovery")
+	}
+	close(stop)
+	s.close()
+}
+
+// c15HalfDeadButPinging: the peer never answers the client's heartbeats but keeps sending its own (which the client
+// acknowledges): only answers prove liveness, the connection must be recycled within interval + timeout.
+func (r *Run) c15HalfDeadButPinging() {
+	I, T := 100*time.Millisecond, 250*time.Millisecond
+	time.Sleep(I + 60*time.Millisecond)
+	hub.reset()
+	s := &session{tc: newTestClient(), v: 1, trans: "tcp"}
+	s.tcp = newTCPPeer()
+	stop := make(chan struct{})
+	var nconn int32
+	go func() {
+		for {
+			pc := s.tcp.accept(5 * time.Second)
+			if pc == nil {
+				return
+			}
+			if !pc.readHandshake(time.Second) {
+				continue
+			}
+			ci := atomic.AddInt32(&nconn, 1) - 1
+			go func() { // reads (and on later connections answers) what the client sends
+				for {
+					select {
+					case <-stop:
+						return
+					default:
+					}
+					f := pc.readFrame(50 * time.Millisecond)
+					if f == nil {
+						if pc.closed {
+							return
+						}
+						continue
+					}
+					if ci > 0 && f.Type == 1 && f.Cmd == 1 {
+						pc.send(respFrame(1, 1, f.Rid, 0, f.Body))
+					}
+				}
+			}()
+			if ci == 0 {
+				go func() { // the half-dead peer's own heartbeats, every 20 ms
+					for i := 0; ; i++ {
+						select {
+						case <-stop:
+							return
+						default:
+						}
+						if pc.send(reqFrame(1, 1, uint32(500000+i), pbBytes(&control.Heartbeat{Timestamp: int64(i)}))) != nil {
+							return
+						}
+						time.Sleep(20 * time.Millisecond)
+					}
+				}()
+			}
+		}
+	}()
+	if err := s.tc.dial(s.tcp.url(), 1, client.Keepalive(I), client.KeepaliveTimeout(T), client.DialTimeout(time.Second)); err == nil {
+		if !waitUntil(I+T+I+500*time.Millisecond, func() bool { return atomic.LoadInt32(&nconn) >= 2 }) {
+			r.violate(Violation{What: "a peer that stopped answering heartbeats was not detected although interval + timeout passed (it kept sending heartbeats of its own)",
+				Case: "tcp I=100ms T=250ms, the peer sends a heartbeat request every 20 ms and answers none"})
+		}
+		r.st.Evaluations++
+		r.count("c15.tcp.half-dead-but-pinging")
 	}
 	close(stop)
 	s.close()
